@@ -120,6 +120,14 @@ def judge(res, ctx, case, closed: bool) -> str | None:
                 park = "between_events"
         elif kind == "loop_returned":
             returned = (t, it)
+        elif kind == "loop_restarted":
+            # the application started connect_loop() again on the same manager: the first close() is judged now, then everything is allowed again
+            if returned is None:
+                ctx.violation("C17:close:loop-not-returned", f"close() at t={t_close}: connect_loop() had not returned when it was started again", case)
+            elif t_close is not None and returned[0] > t_close + SLACK:
+                ctx.violation("C17:close:loop-returned-late", f"close() at t={t_close} ({park}): connect_loop() returned at t={returned[0]}", case)
+            t_close = it_close = returned = None
+            pending.clear()
         elif kind == "horizon":
             if waiting is not None and t_close is None and t > waiting[2] + SLACK:
                 ctx.violation(f"C17:no-reconnect-after-{waiting[0]}", f"{waiting[0]} at t={waiting[1]}: no attempt until the horizon t={t}", case)
@@ -150,6 +158,29 @@ def run_one(word, mode, close_at, ctx):
     case = {"word": list(word), "mode": mode, "close_at": list(close_at) if close_at else None}
     park = judge(res, ctx, case, close_at is not None)
     return res, park
+
+
+def run_restart(ctx) -> None:
+    """close() while connected / during a back-off, connect_loop() again on the same manager shortly afterwards - with transports that
+    deliver connection_lost() only some time after close() - and a final close(): all invariants hold across the restart."""
+    n = 0
+    for word in (("ok",), ("ok", "ok"), ("fail", "ok"), ("ok", "fail", "ok"), ("slow_ok",), ("fail", "fail")):
+        for mode in ("up", "lost"):
+            lifetimes, base = scenario_params(word, mode)
+            for t_close in (0.3, 1.2, 2.9, 3.1, 6.0):
+                for restart_after in (0.0, 0.2, 2.0):
+                    for close_delay in (0.0, 0.5, 3.0):
+                        final = t_close + restart_after + 40.0
+                        res = vloop.run_scenario(list(word), lifetimes, horizon=final + 5, close_at=("time", t_close), default_outcome="ok", default_lifetime=None,
+                                                 restart_after=restart_after, close_delay=close_delay, second_close_at=final, after_close=AFTER)
+                        case = {"word": list(word), "mode": mode, "lifetimes": lifetimes, "horizon": final + 5, "close_at": ["time", t_close], "restart_after": restart_after, "close_delay": close_delay, "second_close_at": final}
+                        kinds = [e[2] for e in res["events"]]
+                        if "loop_restarted" in kinds:
+                            ctx.count("restart_scenarios_in_which_the_loop_ran_again")
+                        judge(res, ctx, case, True)
+                        ctx.case(repr(("restart", word, mode, t_close, restart_after, close_delay)), True)
+                        n += 1
+    ctx.count("restart_after_close_scenarios", n)
 
 
 def run_long(shard, ctx) -> None:
@@ -203,6 +234,7 @@ def run(shard, ctx):
 def _run(shard, ctx):
     if shard["kind"] == "long":
         run_long(shard, ctx)
+        run_restart(ctx)
         return
     if shard["kind"] == "storm":
         finals = {}
@@ -285,6 +317,11 @@ def replay(case, ctx):
         run({"kind": "storm", "cycles": [50, case["cycles"]]}, ctx)
         return
     ca = case.get("close_at")
+    if "restart_after" in case:
+        res = vloop.run_scenario(list(case["word"]), case["lifetimes"], horizon=case["horizon"], close_at=tuple(ca), default_outcome="ok", default_lifetime=None,
+                                 restart_after=case["restart_after"], close_delay=case["close_delay"], second_close_at=case["second_close_at"], after_close=AFTER)
+        judge(res, ctx, case, True)
+        return
     run_one(tuple(case["word"]), case["mode"], tuple(ca) if ca else None, ctx)
 
 
